@@ -23,7 +23,15 @@ FORMS = {
     "wrapper": "W<{T}>",
     "dyn": "Box<dyn Tr2<{T}>>",
     "plain": "u8",            # not generic
+    # forms added after the coverage diagnostic (tools/coverage.sh) showed these arms of `contains_generics` unreached
+    "slice_ref": "&'a [{T}]",
+    "paren": "({T})",
+    "fn_ret": "fn() -> {T}",
+    "dyn_fn": "Box<dyn Fn({T}) -> u8>",
+    "dyn_fn_ret": "Box<dyn Fn() -> {T}>",
+    "dyn_assoc": "Box<dyn Iterator<Item = {T}>>",
 }
+NEW_FORMS = ("slice_ref", "paren", "fn_ret", "dyn_fn", "dyn_fn_ret", "dyn_assoc")
 TRAITS = {"Display": "", "Debug": "?", "LowerHex": "x", "Pointer": "p"}
 ATTR = {"Display": "display", "Debug": "debug", "LowerHex": "lower_hex"}
 STYLES = ["none", "named", "positional", "alias", "expr_bound"]
@@ -193,8 +201,14 @@ def holds(form, tr, x_fmt):
         return tr in ("Debug", "Pointer")
     if form == "phantom":
         return tr == "Debug"
-    if form == "dyn":
+    if form in ("dyn", "dyn_fn", "dyn_fn_ret", "dyn_assoc"):
         return False
+    if form == "fn_ret":
+        return tr in ("Debug", "Pointer")
+    if form == "paren":
+        return x_fmt and tr in ("Display", "Debug", "LowerHex")
+    if form == "slice_ref":
+        return (x_fmt and tr == "Debug") or tr == "Pointer"
     if form in ("qassoc_arg", "gat"):
         return x_fmt and tr in ("Display", "Debug", "LowerHex")
     if form in ("T", "ref", "wrapper"):
@@ -219,6 +233,8 @@ def run(chk, tier):
                     [fs for fs in itertools.product(forms, repeat=n) if fs[0] in ("T", "vec", "plain", "assoc") and fs[2] in ("ref", "plain", "wrapper", "phantom")])
                 style_sets = list(itertools.product(STYLES + (["shadow_expr"] if n <= 2 else []), repeat=n))
                 for fs in form_sets:
+                    if n == 2 and not thorough and fs[0] in NEW_FORMS and fs[1] in NEW_FORMS:
+                        continue
                     for ss in style_sets:
                         if all(s == "none" for s in ss) and n > 1:
                             pass
@@ -258,7 +274,7 @@ def run(chk, tier):
     # Debug without container attribute: implicit fields, skip, field-level attributes (on generic and on non-generic fields)
     for named in (False, True):
         for n in (1, 2, 3):
-            for fs in itertools.product(forms if (n <= 2 or thorough) else ["T", "vec", "plain", "ref", "assoc"], repeat=n):
+            for fs in itertools.product(forms if n <= 2 else ([f for f in forms if f not in NEW_FORMS] if thorough else ["T", "vec", "plain", "ref", "assoc"]), repeat=n):
                 opts = []
                 for i in range(n):
                     o = [None, "skip"]
@@ -327,7 +343,7 @@ def run(chk, tier):
 
     # ---------------- (B) rustc: sufficiency (compiles with no further bounds) and non-excess (unformatted params may be NoFmt)
     cases = []
-    bforms = ["T", "ref", "wrapper", "vec", "assoc", "qassoc_arg", "gat", "rawptr", "phantom", "plain", "tuple"] + (["array", "opt_ref", "qassoc", "fnptr"] if thorough else [])
+    bforms = ["T", "ref", "wrapper", "vec", "assoc", "qassoc_arg", "gat", "rawptr", "phantom", "plain", "tuple", "paren"] + (["array", "opt_ref", "qassoc", "fnptr", "slice_ref", "fn_ret"] if thorough else [])
     for derive in ("Display", "Debug"):
         for named in (False, True):
             for n in (1, 2):
